@@ -102,6 +102,8 @@ def narrow_min_cases(ctx):
         for r in (_R("Not", t), _R("Imply", t, a), _R("AtLeast", t, a, v=-1, s=-1, id="N"), _R("AtLeast", t, a, v=1, s=1, id="P"),
                   _R("All", _R("Not", t), a, id="A"), _R("XNor", t, a), _R("Any", _R("AtLeast", t, v=-lo, s=-1, id="M"), a)):
             out.append({"recipe": r, "src": "handmade"})
+            out.append({"recipe": r, "src": "handmade", "form": 6})          # every value as a scalar of the narrowest numpy type
+            out.append({"recipe": r, "src": "handmade", "form": 3})          # ... as numpy.int64
     ctx.region("leaf_at_narrow_type_minimum")
     return out
 
@@ -587,6 +589,11 @@ def run_c20(ctx):
     cases.sort(key=lambda c: json.dumps([c["vars"], c["dict"], c["list"]], sort_keys=True))
     for k, c in enumerate(cases): c["bits"] = [k % 2, 1, (k // 2) % 2]
     rng = ctx.rng
+    if len(cases) > 40000:
+        # every enumerated state was model-checked by TLC; the replay into the library takes a seeded sample (each case yields about
+        # eight events and the harness keeps all events in memory: the full thorough universe needed more than 24 GB)
+        ctx.notes.append("a seeded sample of 40000 of the %d enumerated bridge states is replayed into the library" % len(cases))
+        cases = [cases[i] for i in sorted(rng.sample(range(len(cases)), 40000))]
     for k in range(300 if q else 3000):
         ids = rng.sample(["a", "b", "c", "n7", "uml", "fz", "A", "zq", "n1", "s1", "nul", "tp", "tq"], rng.randint(1, 5))
         if "n1" in ids and "s1" in ids: ctx.region("int_and_str_form")
